@@ -55,7 +55,7 @@ RtcpTpls == {"rtcp.sr", "rtcp.rr", "rtcp.sdes", "rtcp.bye", "rtcp.nack", "rtcp.t
              "rtcp.remb", "rtcp.compound", "rtcp.padded"}
 StunTpls == {"stun.binding_req", "stun.binding_ok4", "stun.binding_ok6", "stun.alloc_ok", "stun.error401",
              "stun.data_ind"}
-DgTpls   == {"dg.clienthello", "dg.serverhello", "dg.hvr", "dg.cert", "dg.ske", "dg.shd", "dg.cke", "dg.opaque"}
+DgTpls   == {"dg.clienthello", "dg.serverhello", "dg.hvr", "dg.cert", "dg.ske", "dg.shd", "dg.cke", "dg.frag", "dg.opaque"}
 SctpTpls == {"sctp.init", "sctp.init_ack", "sctp.cookie_echo", "sctp.cookie_ack", "sctp.data", "sctp.dcep_open",
              "sctp.sack", "sctp.heartbeat", "sctp.forward_tsn", "sctp.reconfig", "sctp.abort", "sctp.shutdown",
              "sctp.bundle"}
